@@ -1,0 +1,16 @@
+//go:build verif
+
+package webserver
+
+// This file only exists in builds with the "verif" tag: it exports the
+// unexported URL parsers to an external monitoring harness.
+
+func VerifParseGroupName(prefix string, p string) string {
+	return parseGroupName(prefix, p)
+}
+
+func VerifSplitPath(pth string) (string, string, string) {
+	return splitPath(pth)
+}
+
+func VerifEtagMatch(etag, header string) bool { return etagMatch(etag, header) }
